@@ -24,7 +24,9 @@
      cf_fix_zerolen  ares_socket_recvfrom stores 0 in *read_bytes for an empty UDP datagram
                   (/repo 00b9f6e, found with C20); without it read_conn_packets uses an
                   uninitialised length: undefined behaviour
-   With all three false the model is the pinned tree. *)
+     cf_udp_garbage_drop  an unparsable UDP datagram is dropped instead of being treated as a
+                  connection error (fixes/C05-udp-garbage-drop.patch); TCP is unchanged
+   With all four false the model is the pinned tree. *)
 From Coq Require Import ZArith List Bool Lia.
 From CAres.Base Require Import Outcome CInt.
 From CAres.Gen Require Import Consts LeafFns.
@@ -93,7 +95,7 @@ Record config := mkCfg {
   cf_dns0x20 : bool; cf_igntc : bool; cf_nocheckresp : bool; cf_usevc : bool;
   cf_max_tries : Z;                      (* ares_slist_len(servers) * tries *)
   cf_qcache : bool; cf_qcache_max_ttl : Z;
-  cf_fix_conn : bool; cf_fix_qr : bool; cf_fix_zerolen : bool }.
+  cf_fix_conn : bool; cf_fix_qr : bool; cf_fix_zerolen : bool; cf_udp_garbage_drop : bool }.
 
 Inductive output :=
 | OCallback (tok status : Z) (data : option Z)   (* data = tag of the record handed over *)
@@ -361,6 +363,8 @@ Definition process_answer (cfg : config) (st : chan) (cn : conn) (sv : server)
   match d with
   | DEmpty => Ok (st, [])                                  (* alen == 0 *)
   | DMalformed tag =>                                      (* EBADRESP -> handle_conn_error *)
+      if cf_udp_garbage_drop cfg && negb (cn_tcp cn) then Ok (st, [])
+      else
       let '(st1, outs) := close_connection cfg st (cn_id cn) ARES_EBADRESP in
       Ok (st1, OServerFail (sv_idx sv) tag :: OConnError (cn_id cn) :: outs)
   | DParsed p =>
@@ -573,10 +577,10 @@ Definition init_chan (servers : list server) : chan := mkChan [] [] servers [] [
 (* ------------------------------------------------------------------------------------- *)
 Definition fixed_cfg (dns0x20 igntc nocheckresp usevc : bool) (max_tries : Z) (qcache : bool)
            (max_ttl : Z) : config :=
-  mkCfg dns0x20 igntc nocheckresp usevc max_tries qcache max_ttl true true true.
+  mkCfg dns0x20 igntc nocheckresp usevc max_tries qcache max_ttl true true true true.
 Definition pinned_cfg (dns0x20 igntc nocheckresp usevc : bool) (max_tries : Z) (qcache : bool)
            (max_ttl : Z) : config :=
-  mkCfg dns0x20 igntc nocheckresp usevc max_tries qcache max_ttl false false false.
+  mkCfg dns0x20 igntc nocheckresp usevc max_tries qcache max_ttl false false false false.
 
 (* the provenance monitor: is there a live query for which this packet is authentic, and
    which one (token) *)
